@@ -24,11 +24,11 @@ RULE = ("kernel x shape class {degenerate (1x1), tiny, non-multiple-of-threads, 
         "non-trivial = shape has more iterations than 1; distinct = distinct (kernel, shape, dtype, config)")
 KERNELS = ("extract_tim", "extract_bpass", "mask_channels", "dedisperse", "subband", "remove_zerodm", "invert_freq", "moments", "moments_basic",
            "downsample_1d_par", "downsample_2d_par")
-SHAPES = {"degenerate": (1, 1), "tiny": (3, 5), "odd": (37, 13), "large": (20011, 8), "wide": (257, 512)}
+SHAPES = {"degenerate": (1, 1), "tiny": (3, 5), "odd": (37, 13), "large": (20011, 8), "wide": (257, 512), "chan1300": (300, 1300)}
 
 
 def REQUIRED(tier):
-    return [f"kernel:{k}" for k in KERNELS] + ["configs_run", "probe_runs", "probe_wrong", "canary_audits", "pyfunc_checks", "shape:large", "shape:degenerate", "affinity_pinned_cases"]
+    return [f"kernel:{k}" for k in KERNELS] + ["configs_run", "probe_runs", "probe_wrong", "canary_audits", "pyfunc_checks", "shape:large", "shape:degenerate", "affinity_pinned_cases", "kernel:lib_subband", "shape:chan1300"]
 
 
 def EXTRA_COVERAGE(tier, tot):
@@ -55,6 +55,8 @@ def cases(tier, seed):
             k += 1
             yield {"kernel": kern, "shape": shape, "dtype": "float32" if k % 2 else "uint8", "reps": max(1, reps // 3), "seed": int(seed) * 1009 + k, "tier": tier, "affinity": 2}
     yield {"kernel": "probe", "reps": reps, "seed": int(seed) * 1009 + 7000, "tier": tier, "affinity": 2}
+    for nch in (9, 10, 12, 16):
+        yield {"kernel": "lib_subband", "nchans": nch, "reps": reps, "seed": int(seed) * 1009 + 9000 + nch, "tier": tier}
 
 
 def _build(kern, ns, nch, dt, rng, fr):
@@ -156,9 +158,68 @@ def run_case(case, ctx):
     return _run_case(case, ctx)
 
 
+def _lib_subband(case, ctx):
+    """The sub-band kernel as the library drives it: every index of the channel->sub-band table must address the sample's own
+    nsubs outputs (otherwise two parallel iterations write the same element / past the end), and the written file must not
+    depend on the schedule."""
+    import tempfile
+
+    from sigpyproc.core import kernels as K
+    from sigpyproc.readers import FilReader
+    from vlib import sigfile
+
+    rng = np.random.default_rng([case["seed"], 23])
+    nch, N = case["nchans"], 64
+    d = tempfile.mkdtemp(prefix="c19-", dir=ctx.tmp)
+    X = rng.integers(0, 4, size=(N, nch)).astype(np.uint8)
+    path = os.path.join(d, "in.fil")
+    sigfile.write_fil(path, X, 8, fch1=1500.0, foff=-10.0, tsamp=1e-3)
+    fil = FilReader(path)
+    calls = []
+    orig = K.subband
+
+    def spy(inarray, outarray, delays, chan_to_sub, maxdelay, nchans, nsubs, nsamps):
+        calls.append((np.array(chan_to_sub), int(nsubs), int(outarray.size), int(nsamps), int(maxdelay)))
+        return orig(inarray, outarray, delays, chan_to_sub, maxdelay, nchans, nsubs, nsamps)
+
+    K.subband = spy
+    try:
+        for nsub in range(1, nch + 1):
+            ref = None
+            for (t, k) in [(1, 0), (2, 1), (16, 1), (8, 0), (16, 3)]:
+                calls.clear()
+                ctx.evaluated(); ctx.count("kernel:lib_subband")
+                one = dict(case, nsub=nsub, config=[t, k])
+                out = os.path.join(d, "out.fil")
+                try:
+                    sched.run_config(min(t, NUMBA_THREADS), k, lambda: fil.subband(2.0, nsub, out, gulp=int(rng.choice([N, 17, 16])), quiet=True, description="v"))
+                except ValueError:
+                    ctx.count("lib_subband:refused")
+                    break
+                for c2s, ns_, osz, nsamps, md in calls:
+                    if c2s.size and (c2s.max() >= ns_ or c2s.min() < 0):
+                        ctx.violation("subband-table-index-outside-sample", f"Filterbank.subband(nsub={nsub}) on {nch} channels hands the kernel chan_to_sub={c2s.tolist()} with nsubs={ns_}: "
+                                      f"channels mapped to index {int(c2s.max())} are added to another sample's output (owned by another parallel iteration) or past the end of the buffer", one)
+                        return
+                    if (nsamps - md) * ns_ > osz:
+                        ctx.violation("subband-output-buffer-too-small", f"kernel writes {(nsamps - md) * ns_} elements into a buffer of {osz}", one)
+                        return
+                raw = open(out, "rb").read()
+                if ref is None:
+                    ref = raw
+                elif raw != ref:
+                    ctx.violation("schedule-dependent:Filterbank.subband", f"output file for nsub={nsub} differs between schedules (threads={t}, chunk={k})", one)
+                    return
+            ctx.nontrivial_case({"k": "lib_subband", "nch": nch, "nsub": nsub})
+    finally:
+        K.subband = orig
+
+
 def _run_case(case, ctx):
     import numba
 
+    if case["kernel"] == "lib_subband":
+        return _lib_subband(case, ctx)
     rng = np.random.default_rng([case["seed"], 19])
     cfgs = sched.configs(case["tier"])
     reps = case["reps"]
